@@ -60,50 +60,38 @@ theorem C02_walk (c : Ctx) (hplain : c.cfg.enc = none) (hfull : c.cfg.re = none)
 
 /-- two command documents are related when they have the same keys, the values of the zone keys
     are related in the zone's start state, and everything else is equal -/
-def CmdRel (c : Ctx) (hasInsert : Bool) : List (Str × J) → List (Str × J) → Prop
+def CmdRel (c : Ctx) (hasInsert hasBulk : Bool) : List (Str × J) → List (Str × J) → Prop
   | [], b => b = []
   | (k, v) :: rest, b => ∃ v' rest', b = (k, v') :: rest' ∧
-      c.RelAt c.LeafRel (Ctx.zoneState hasInsert k) v v' ∧ CmdRel c hasInsert rest rest'
+      c.RelAt c.LeafRel (Ctx.zoneState hasInsert hasBulk k) v v' ∧ CmdRel c hasInsert hasBulk rest rest'
 
-theorem CmdRel_keys (c : Ctx) (hi : Bool) : ∀ a b, CmdRel c hi a b → keysOf a = keysOf b
+theorem CmdRel_keys (c : Ctx) (hi hb : Bool) : ∀ a b, CmdRel c hi hb a b → keysOf a = keysOf b
   | [], b, h => by simp [CmdRel] at h; simp [h]
   | (k, v) :: rest, b, h => by
     simp only [CmdRel] at h
     obtain ⟨v', rest', e, _, hr⟩ := h
-    subst e; simp [keysOf_cons, CmdRel_keys c hi rest rest' hr]
+    subst e; simp [keysOf_cons, CmdRel_keys c hi hb rest rest' hr]
 
-theorem lookup_isSome_keys {α} (k : Str) : ∀ (a b : List (Str × α)), keysOf a = keysOf b →
-    (lookup k a).isSome = (lookup k b).isSome
-  | [], [], _ => rfl
-  | [], _ :: _, h => by simp [keysOf] at h
-  | _ :: _, [], h => by simp [keysOf] at h
-  | (ka, va) :: ra, (kb, vb) :: rb, h => by
-    simp only [keysOf_cons, List.cons.injEq] at h
-    obtain ⟨h1, h2⟩ := h
-    subst h1
-    by_cases e : ka = k
-    · simp [lookup, e]
-    · simp [lookup, e, lookup_isSome_keys k ra rb h2]
-
-theorem redactCommandA_rel (c : Ctx) (hplain : c.cfg.enc = none) (hfull : c.cfg.re = none) (hi : Bool) :
-    ∀ a b, CmdRel c hi a b →
-      (a.map fun p => (p.1, c.run (Ctx.zoneState hi p.1) p.2)) = (b.map fun p => (p.1, c.run (Ctx.zoneState hi p.1) p.2))
+theorem redactCommandA_rel (c : Ctx) (hplain : c.cfg.enc = none) (hfull : c.cfg.re = none) (hi hb : Bool) :
+    ∀ a b, CmdRel c hi hb a b →
+      (a.map fun p => (p.1, c.run (Ctx.zoneState hi hb p.1) p.2)) = (b.map fun p => (p.1, c.run (Ctx.zoneState hi hb p.1) p.2))
   | [], b, h => by simp [CmdRel] at h; simp [h]
   | (k, v) :: rest, b, h => by
     simp only [CmdRel] at h
     obtain ⟨v', rest', e, h1, hr⟩ := h
     subst e
-    simp [C02_walk c hplain hfull _ v v' h1, redactCommandA_rel c hplain hfull hi rest rest' hr]
+    simp [C02_walk c hplain hfull _ v v' h1, redactCommandA_rel c hplain hfull hi hb rest rest' hr]
 
 /-- **C02 (command level)**: related command documents are redacted to the same document
-    (query / update / delete / insert / pipeline zones, with or without --redactNamespaces) -/
+    (query / update / delete / insert / pipeline zones, the operation wrapped by explain and the operations of bulkWrite; with or without --redactNamespaces) -/
 theorem C02_command (c : Ctx) (hplain : c.cfg.enc = none) (hfull : c.cfg.re = none) (a b : List (Str × J))
-    (h : CmdRel c (lookup sInsert a).isSome a b) : c.cmdDoc (.obj a) = c.cmdDoc (.obj b) := by
+    (h : CmdRel c (lookup sInsert a).isSome (lookup sBulkWrite a).isSome a b) : c.cmdDoc (.obj a) = c.cmdDoc (.obj b) := by
   rw [← Ctx.cmdDoc_refine, ← Ctx.cmdDoc_refine]
-  have hk := CmdRel_keys c _ a b h
-  have hi : (lookup sInsert a).isSome = (lookup sInsert b).isSome := lookup_isSome_keys _ a b hk
-  have := redactCommandA_rel c hplain hfull _ a b h
-  simp only [Ctx.cmdDocA, Ctx.redactCommandA, ← hi, this]
+  have hk := CmdRel_keys c _ _ a b h
+  have hi : (lookup sInsert a).isSome = (lookup sInsert b).isSome := Ctx.lookup_isSome_keys _ a b hk
+  have hb : (lookup sBulkWrite a).isSome = (lookup sBulkWrite b).isSome := Ctx.lookup_isSome_keys _ a b hk
+  have := redactCommandA_rel c hplain hfull _ _ a b h
+  simp only [Ctx.cmdDocA, Ctx.redactCommandA, ← hi, ← hb, this]
 
 /-- non-vacuity: in a `filter`, two different ordinary strings under a user field are related,
     so are an ISO date and anything else under `$date`; with the flag off two numbers are not. -/
